@@ -140,6 +140,9 @@ pub fn run(tier: Tier) -> i32 {
             ctx.violation("version|not-a-distinct-single-bit", json!({"version": format!("{v:?}")}));
         }
         bits |= val;
+        if v.filename() != crate::common::specgraph::xsd_name(v) {
+            ctx.violation("version|filename-is-not-the-schema-file-name-of-the-version", json!({"version": format!("{v:?}"), "filename": v.filename()}));
+        }
         if AutosarVersion::from_str(v.filename()).ok() != Some(v) {
             ctx.violation("version|filename-round-trip", json!({"version": format!("{v:?}")}));
         }
